@@ -8,6 +8,15 @@ include!("/verif/harness/vk_prelude.rs");
 use super::*;
 use std::cmp::Ordering;
 
+/// `=~` (regex) is an arm of eval_binary_op that no harness here takes, but it makes the whole `regex` crate
+/// reachable for code generation, and kani-compiler 0.68 crashes on it (rvalue.rs:1009, TryFromIntError).
+/// The stub removes it from the build; it can never run (the operator is concrete in every harness).
+#[cfg(kani)]
+fn vk_regex_new(_re: &str) -> Result<regex::Regex, regex::Error> {
+    kani::assume(false);
+    unreachable!()
+}
+
 // tags: 0 Boolean, 1 Integer, 2 Float, 3 String(1 ASCII char), 4 Null, 5 DateTime
 #[inline(always)]
 fn mk(tag: u8) -> PropertyValue {
